@@ -242,3 +242,81 @@ def pad(p, root, nlocals, nconsts):
         ss.append(p.emit([p.un("#", p.id("padc"))]))
     old = p.nodes[root]["ss"]
     return p, p.block(ss + old)
+
+
+def tabcons_cases(rng, n):
+    """table constructors: positional items around the flush boundary (FieldsPerFlush = 50),
+    keyed fields whose values are calls, trailing multi-valued call / vararg, in every order"""
+    out = []
+    sizes = [0, 1, 2, 3, 48, 49, 50, 51, 52, 99, 100, 101, 150]
+    for _ in range(n):
+        p = Prog()
+        ss = [p.localfunction("f", p.func([], p.block([p.ret([p.num(901), p.num(902), p.num(903)])]))),
+              p.localfunction("g", p.func(["a"], p.block([p.ret([p.id("a"), p.bin("+", p.id("a"), p.num(1))])]))),
+              p.localfunction("none", p.func([], p.block([p.ret([])])))]
+        npos = rng.choice(sizes)
+        items = [("p", p.num(i)) for i in range(1, npos + 1)]
+        # sprinkle keyed fields (constant, call-valued, expression keys) among the positional ones
+        for _ in range(rng.randint(0, 3)):
+            kind = rng.random()
+            pos = rng.randint(0, len(items))
+            if kind < 0.4:
+                items.insert(pos, ("k", p.add("str", s=[120 + rng.randint(0, 2)], name=True), p.call(p.id("f"), [])))
+            elif kind < 0.6:
+                items.insert(pos, ("k", p.add("str", s=[120 + rng.randint(0, 2)], name=True), p.num(77)))
+            elif kind < 0.8:
+                items.insert(pos, ("k", p.num(rng.choice([0, -1, 1000])), p.call(p.id("g"), [p.num(5)])))
+            else:
+                items.insert(pos, ("k", p.bin("..", p.str("k"), p.num(1)), p.paren(p.call(p.id("f"), []))))
+        tail = rng.random()
+        if tail < 0.3:
+            items.append(("p", p.call(p.id("f"), [])))
+        elif tail < 0.45:
+            items.append(("p", p.call(p.id("g"), [p.num(npos + 1)])))
+        elif tail < 0.55:
+            items.append(("p", p.call(p.id("none"), [])))
+        elif tail < 0.65:
+            items.append(("p", p.paren(p.call(p.id("f"), []))))
+        elif tail < 0.75:
+            items.append(("p", p.dots()))
+        build = p.func([], p.block([p.local(["t"], [p.table(items)]), p.ret([p.id("t")])]), va=True, ud=True)
+        ss.append(p.local(["t"], [p.call(p.paren(build), [p.num(801), p.num(802)])]))
+        lo = max(1, npos - 2)
+        ss.append(p.emit([p.index(p.id("t"), p.num(i)) for i in range(lo, npos + 5)]))
+        ss.append(p.emit([p.index(p.id("t"), p.num(1)), p.index(p.id("t"), p.num(2)), p.field(p.id("t"), "x"), p.field(p.id("t"), "y"), p.field(p.id("t"), "z"),
+                          p.field(p.id("t"), "k1"), p.index(p.id("t"), p.num(0)), p.index(p.id("t"), p.num(-1)), p.index(p.id("t"), p.num(1000))]))
+        ss.append(p.local(["cnt"], [p.num(0)]))
+        ss.append(p.forin(["k", "v"], [p.call(p.id("pairs"), [p.id("t")])], p.block([p.assign([p.id("cnt")], [p.bin("+", p.id("cnt"), p.num(1))])])))
+        ss.append(p.emit([p.str("count"), p.id("cnt")]))
+        out.append((p, p.block(ss)))
+    return out
+
+
+def forin_cases(rng, n):
+    """generic for: explists of 1..4 values (adjusted to exactly three), 1..3 loop variables,
+    stale registers left by an earlier block, custom iterators observing state and control"""
+    out = []
+    for _ in range(n):
+        p = Prog()
+        it = p.func(["s", "c"], p.block([p.emit([p.str("iter"), p.id("s"), p.id("c")]),
+                                         p.assign([p.id("cnt")], [p.bin("+", p.id("cnt"), p.num(1))]),
+                                         p.if_([p.bin(">", p.id("cnt"), p.num(2))], [p.block([p.ret([p.nil()])])]),
+                                         p.ret([p.id("cnt"), p.bin("*", p.id("cnt"), p.num(10)), p.str("third")])]))
+        ss = [p.local(["cnt"], [p.num(0)]), p.localfunction("it", it),
+              p.do(p.block([p.local(["s1", "s2", "s3", "s4", "s5"], [p.str("stale1"), p.str("stale2"), p.str("stale3"), p.str("stale4"), p.str("stale5")])]))]
+        nvals = rng.randint(1, 4)
+        kind = rng.random()
+        if kind < 0.5:
+            exprs = [p.id("it"), p.str("S"), p.num(0), p.str("extra")][:nvals]
+        elif kind < 0.75:
+            exprs = [p.id("next"), p.table([("p", p.num(7)), ("p", p.num(8))]), p.nil(), p.num(1)][:max(2, nvals)]
+        else:
+            three = p.func([], p.block([p.ret([p.id("it"), p.str("S3")] + ([p.num(0)] if rng.random() < 0.5 else []))]))
+            exprs = [p.call(p.paren(three), [])]
+        nnames = rng.randint(1, 3)
+        names = ["k", "v", "w"][:nnames]
+        body = [p.emit([p.str("body")] + [p.id(x) for x in names])]
+        ss.append(p.forin(names, exprs, p.block(body)))
+        ss.append(p.emit([p.str("end"), p.id("cnt")]))
+        out.append((p, p.block(ss)))
+    return out
